@@ -42,6 +42,8 @@ def gen_scenario(r, n_tests=None, allow_signal=True, allow_hang=True):
     backoff = r.choice(["fixed", "exponential"]) if delay_ms else "fixed"
     tests = []
     names = [f"t{i:02d}_{r.choice(['a', 'b', 'c'])}" for i in range(n)]
+    # some names contain a space (custom harnesses); every argument reaches the test process as one word
+    names = [nm + " x" if r.random() < 0.12 else nm for nm in names]
     for i, nm in enumerate(names):
         b = r.choice(BINS)
         ignored = r.random() < 0.12
@@ -85,6 +87,9 @@ def gen_scenario(r, n_tests=None, allow_signal=True, allow_hang=True):
         # CaptureStrategy::Combined" -- observation O4; that combination is only used by the directed
         # all-passing C08 scenarios)
         sc["no_capture"] = "human"
+    if r2.random() < 0.12:
+        nn = r2.choice([2, 3])
+        sc["partition"] = f"{r2.choice(['count', 'hash'])}:{r2.randint(1, nn)}/{nn}"
     if sc["threads"] in (1, 2) and r2.random() < 0.3:
         sc["threads_spelling"] = f"-{max(ncpu() - sc['threads'], 0)}" if ncpu() > sc["threads"] else str(sc["threads"])
     if r.random() < 0.3 and n >= 3:
@@ -209,6 +214,8 @@ def cli_args(sc, profile):
         a += {"ff": ["--fail-fast"], "noff": ["--no-fail-fast"], "maxfail2": ["--max-fail", "2"]}[sc["failfast"]]
     if via.get("retries") == "cli":
         a += ["--retries", str(sc["retries"])]
+    if sc.get("partition"):
+        a += ["--partition", sc["partition"]]
     if sc.get("message_format") and not sc.get("no_capture"):
         a += ["--message-format", sc["message_format"]]
     if sc.get("no_tests") and sc.get("no_tests_via") != "env":
@@ -232,6 +239,22 @@ def selected(sc):
         if sc["filter"] and sc["filter"] not in t["name"]:
             continue
         out.append(t)
+    part = sc.get("partition")
+    if part:
+        # the documented sharding, applied last: count = every n-th test in name order beginning with the m-th,
+        # within each binary and separately for ignored and non-ignored tests; hash = xxh64(name) mod n
+        kind, mn = part.split(":")
+        m, n = (int(x) for x in mn.split("/"))
+        if kind == "hash":
+            from props.C13 import py_xxh64
+            out = [t for t in out if py_xxh64(t["name"].encode()) % n == m - 1]
+        else:
+            keep = []
+            for b in sorted({t["bin"] for t in out}):
+                for cls in (False, True):
+                    names = sorted(t["name"] for t in out if t["bin"] == b and t["ignored"] == cls)
+                    keep += [(b, nm) for nm in names[m - 1::n]]
+            out = [t for t in out if (t["bin"], t["name"]) in keep]
     return out
 
 
@@ -823,6 +846,21 @@ def directed(prop):
                        expect=["pass"], mode="pass")]
         out.append(dict(tests=tests, retries=0, delay_ms=0, backoff="fixed", failfast="noff", threads=1, filter="_a",
                         run_ignored="default", sigint_at=0.4, priorities=None, groups=None))
+    if prop in ("C02", "C15"):
+        # names made of several words, next to tests named like the single words: exactly the selected one runs
+        tests = [dict(bin="alpha::t1", name=nm, ignored=False, attempts=[{"sleep": 0.0, "exit": 0}], expect=["pass"],
+                      mode="pass") for nm in ("alpha", "alpha beta", "beta", "gamma  delta")]
+        out.append(dict(tests=tests, retries=0, delay_ms=0, backoff="fixed", failfast="noff", threads=2, filter="a b",
+                        run_ignored="default", sigint_at=None, priorities=None, groups=None))
+    if prop in ("C01", "C02", "C17"):
+        # sharded runs: the tests of the other shards are not part of the selection (an all-passing shard exits 0,
+        # they are reported skipped, none of them runs)
+        for part in ("count:1/2", "count:2/2", "hash:1/3"):
+            tests = [dict(bin=b, name=f"t{i:02d}_p", ignored=(i == 3), attempts=[{"sleep": 0.0, "exit": 0}],
+                          expect=["pass"], mode="pass")
+                     for i, b in enumerate(["alpha::t1", "alpha::t1", "alpha::t1", "alpha::t1", "beta::t1", "beta::t1", "beta::t2"])]
+            out.append(dict(tests=tests, retries=0, delay_ms=0, backoff="fixed", failfast="noff", threads=2, filter=None,
+                            run_ignored="all", sigint_at=None, priorities=None, groups=None, partition=part))
     if prop in ("C01", "C02"):
         # an empty selection under each no-tests policy (command line and environment); every listed test is
         # still reported skipped
